@@ -10,7 +10,7 @@ bound is read at the sampled cell and direction, upper/lower walkers are built f
 Not decided: exactness of the alias table for concrete rate vectors (floats), zero-rate cells at the boundary draw 0.0.
 """
 import ast
-from typing import Dict, List, Optional
+from typing import Dict, List, Optional, Tuple
 
 from ..core import AnalysisError, Loc, Report, Source, norm
 from ..pyfront import Program, body_without_docstring, const_value, param_names, self_attr
@@ -86,8 +86,12 @@ def analyse(src: Source) -> List[Report]:
     loc = Loc(W, init.lineno, "Walker.__init__")
     rep.ob("R18.1-total-is-sum", total_attr is not None, loc, assigns[total_attr] if total_attr else "total", "the total rate must be the sum of the item rates")
     rep.ob("R18.1-mean-is-total-over-n", mean_attr is not None, loc, assigns[mean_attr] if mean_attr else "mean", "the mean rate must be total / number of items")
-    props = [m for m in wk.methods.values() if any(norm(d) == "property" for d in m.decorator_list)]
-    ok = any(any(isinstance(r, ast.Return) and self_attr(r.value) == total_attr for r in ast.walk(m)) for m in props)
+    # the accessor of the total (a property or a plain method without arguments): a public routine whose every return is the stored total
+    accessors = [m for m in wk.methods.values() if not m.name.startswith("_") and len(param_names(m)) == 0
+                 and any(isinstance(r, ast.Return) for r in ast.walk(m))
+                 and all(self_attr(r.value) == total_attr for r in ast.walk(m) if isinstance(r, ast.Return))]
+    ok = bool(accessors)
+    total_accessors = {m.name for m in accessors}
     rep.ob("R18.1-total-rate-property", ok, Loc(W, wk.node.lineno, "Walker.total_rate"), "total_rate returns the stored total",
            "the reported total must equal the sum of the rates")
     if not (total_attr and mean_attr and table_attr):
@@ -218,9 +222,7 @@ def analyse(src: Source) -> List[Report]:
     for lp_ in [n for n in ast.walk(build) if isinstance(n, ast.For) and isinstance(n.target, ast.Name)]:
         it_ = lp_.iter
         parts = list(it_.args) if isinstance(it_, ast.Call) and norm(it_.func) in ("chain", "itertools.chain") else \
-            ([it_.left, it_.right] if isinstance(it_, ast.BinOp) and isinstance(it_.op, ast.Add) else None)
-        if parts is None:
-            continue
+            ([it_.left, it_.right] if isinstance(it_, ast.BinOp) and isinstance(it_.op, ast.Add) else [it_])
         srcs = []
         for p_ in parts:
             while isinstance(p_, ast.Call) and isinstance(p_.func, ast.Name) and p_.func.id in ("reversed", "list", "tuple", "iter") and len(p_.args) == 1:
@@ -248,14 +250,22 @@ def analyse(src: Source) -> List[Report]:
     rows = [s_ for s_ in ast.walk(sample) if isinstance(s_, ast.Assign) and isinstance(s_.targets[0], ast.Name)
             and isinstance(s_.value, ast.Call) and norm(s_.value.func) == "random.choice"]
     ok = False
+    keep_row: Tuple[str, ...] = ()
+    choice_calls = [c_ for c_ in ast.walk(sample) if isinstance(c_, ast.Call) and norm(c_.func) == "random.choice"]
+    if len(rows) != 1 and len(choice_calls) == 1:
+        # the drawn row is not bound to a name of its own (e.g. unpacked at once): the draw itself stands for the row
+        class _RowStandIn:
+            def __init__(self, call): self.targets, self.value, self.lineno = [call], call, call.lineno
+        rows = [_RowStandIn(choice_calls[0])]       # type: ignore
     if len(rows) == 1:
         row = norm(rows[0].targets[0])
+        keep_row = (row,) if isinstance(rows[0].targets[0], ast.Name) else ()
         ok_row = norm(rows[0].value) == f"random.choice(self.{table_attr})"
         uniform = (f"random.uniform(0.0, {mean})", f"random.uniform(0, {mean})")
 
         def coin_side(test: ast.AST) -> Optional[bool]:
             """True: the test holds exactly for heads (uniform(0, mean) <= row[0].rate); False: exactly for tails; None: no coin"""
-            at = atoms(RS.res(test, (row,)))
+            at = atoms(RS.res(test, keep_row))
             sp = split_atom(at[0]) if len(at) == 1 else None
             if sp is None:
                 return None
@@ -276,11 +286,11 @@ def analyse(src: Source) -> List[Report]:
             rest = sb[sb.index(t) + 1:]
             for branch, heads in ((t.body, side), ((t.orelse or rest), not side)):
                 rs = [x for st in branch for x in ast.walk(st) if isinstance(x, ast.Return)]
-                outcomes[heads] = RS.text(rs[0].value, (row,)) if len(rs) == 1 and rs[0].value is not None else None
+                outcomes[heads] = RS.text(rs[0].value, keep_row) if len(rs) == 1 and rs[0].value is not None else None
         if coin_node is None:
             rets = [x for x in ast.walk(sample) if isinstance(x, ast.Return) and x.value is not None]
             if len(rets) == 1:
-                rv = RS.res(rets[0].value, (row,))
+                rv = RS.res(rets[0].value, keep_row)
                 conds = [x for x in ast.walk(rv) if isinstance(x, ast.IfExp)]
                 if len(conds) == 1 and coin_side(conds[0].test) is not None:
                     side = coin_side(conds[0].test)
@@ -291,7 +301,7 @@ def analyse(src: Source) -> List[Report]:
                                 return pick if node is conds[0] else self.generic_visit(node)
                         import copy as _copy
                         outcomes[heads] = norm(Sub().visit(_copy.deepcopy(rv))) if False else norm(_replace(rv, conds[0], pick))
-        rep.ob("R18.3-uniform-row", ok_row, locs, rows[0], "the row must be chosen uniformly from the table")
+        rep.ob("R18.3-uniform-row", ok_row, locs, rows[0].value, "the row must be chosen uniformly from the table")
         rep.ob("R18.3-coin", coin_node is not None, locs, coin_node if coin_node is not None else "coin",
                "the coin must compare uniform(0, mean) with the first entry's rate")
         if coin_node is not None:
@@ -374,9 +384,15 @@ def analyse(src: Source) -> List[Report]:
     comp_of_attr: Dict[str, int] = {}
     for a in ast.walk(ini):
         if isinstance(a, ast.Assign) and self_attr(a.targets[0]) and isinstance(a.value, ast.ListComp) and isinstance(a.value.elt, ast.Call) \
-                and norm(a.value.elt.func) == "Walker" and len(a.value.generators) == 1 and isinstance(a.value.generators[0].iter, ast.Name) \
-                and a.value.generators[0].iter.id in comp_of_list:
-            comp_of_attr[self_attr(a.targets[0])] = comp_of_list[a.value.generators[0].iter.id]
+                and norm(a.value.elt.func) == "Walker" and len(a.value.generators) == 1 and len(a.value.elt.args) == 1:
+            g_ = a.value.generators[0]
+            arg_ = a.value.elt.args[0]
+            # [Walker(items) for items in LISTS]   or   [Walker(LISTS[d]) for d in range(dimension)]
+            if isinstance(g_.iter, ast.Name) and g_.iter.id in comp_of_list and norm(arg_) == norm(g_.target):
+                comp_of_attr[self_attr(a.targets[0])] = comp_of_list[g_.iter.id]
+            elif isinstance(arg_, ast.Subscript) and isinstance(arg_.value, ast.Name) and arg_.value.id in comp_of_list \
+                    and norm(arg_.slice) == norm(g_.target) and norm(g_.iter) == "range(setting.dimension)":
+                comp_of_attr[self_attr(a.targets[0])] = comp_of_list[arg_.value.id]
     rep.ob("R18.4-walker-per-direction", sorted(comp_of_attr.values()) == [0, 1], Loc(CV, ini.lineno, "CellVetoEventHandler.initialize"),
            f"walker tables per direction built from bound components {comp_of_attr}", "one walker per direction for the upper (component 0) and lower (component 1) bounds")
     # send_event_time under the two signs of the charge factor: abstract run of the canonical method (helpers inlined) with the
@@ -526,7 +542,8 @@ def analyse(src: Source) -> List[Report]:
     if len(td) == 1 and walker_var and charge_var and index_var:
         fs = [canon_names(f) for f in RT.factors(td[0], keep)]
         speed = [f for f in fs if f.startswith("1/") and ".velocity[" in f]
-        okt = norm(td[0].left) == "random.expovariate(setting.beta)" and len(fs) == 4 and f"1/{walker_var}.total_rate" in fs \
+        fs = [f[:-2] if f.endswith("()") and any(f == f"1/{walker_var}.{a_}()" for a_ in total_accessors) else f for f in fs]
+        okt = norm(td[0].left) == "random.expovariate(setting.beta)" and len(fs) == 4 and any(f"1/{walker_var}.{a_}" in fs for a_ in total_accessors) \
             and f"1/{charge_var}" in fs and len(speed) == 1 and "random.expovariate(setting.beta)" in fs
     rep.ob("R18.4-candidate-time", okt, locv, td[0] if td else "time displacement",
            "the candidate time must be Exp(beta) / (total rate of the chosen walker x charge factor x speed)")
